@@ -647,7 +647,16 @@ class Evaluator:
         raise Und("subscript")
 
     def ev_Tuple(self, e, env, ctx):
-        return tuple(self.ev(x, env, ctx) for x in e.elts)
+        out = []
+        for x in e.elts:
+            if isinstance(x, ast.Starred):   # (a, *f(v)): the elements of the starred tuple are spliced in
+                v = self.ev(x.value, env, ctx)
+                if not isinstance(v, (tuple, list)):
+                    raise Und("star of non-tuple in a display")
+                out += list(v)
+            else:
+                out.append(self.ev(x, env, ctx))
+        return tuple(out)
 
     ev_List = ev_Tuple
 
